@@ -105,6 +105,10 @@ def run_history(ops, cluster, sc, tag, out):
                                                           for k, v in model.d.items()), default=str))
         if op[0] == "reopen":  # new backend objects (cold caches, nothing in hand) over the same directories
             fresh = dict(make_backends(sc, tag))
+            # mementos in hand belong to the backend object that handed them out: they go with it (the table is keyed by
+            # id(), and a new backend may get the id of one that is gone)
+            gone = {id(b) for name, b in backs if name != "memory"}
+            refs.held = {k: m for k, m in refs.held.items() if k[0] not in gone}
             backs = [(name, b if name == "memory" else fresh[name]) for name, b in backs]
             out["obs"]["stores_reopened"] = out["obs"].get("stores_reopened", 0) + 1
             continue
